@@ -87,7 +87,19 @@ macro_rules! resizable_backops {
 #[cfg(feature = "heap")]
 resizable_backops!(any_vec::mem::Heap, Bk::Heap,
     fn parts<Tr: ?Sized + Trait, T: Elem>(v: AnyVec<Tr, Self>, mode: usize) -> (AnyVec<Tr, Self>, Vec<u64>) { parts_impl::<Tr, Self, T>(v, mode) });
-resizable_backops!(crate::reloc::Reloc, Bk::Reloc,);
+impl<const C0: usize> BackOps for crate::reloc::Reloc<C0> {
+    const RESIZABLE: bool = true;
+    const RAW: bool = true;
+    fn matches(bk: &Bk) -> bool { *bk == Bk::Reloc(C0) }
+    fn fixed_cap(_sz: usize) -> Option<usize> { None }
+    fn reserve<Tr: ?Sized + Trait>(v: &mut AnyVec<Tr, Self>, n: usize) { v.reserve(n) }
+    fn reserve_exact<Tr: ?Sized + Trait>(v: &mut AnyVec<Tr, Self>, n: usize) { v.reserve_exact(n) }
+    fn shrink_to_fit<Tr: ?Sized + Trait>(v: &mut AnyVec<Tr, Self>) { v.shrink_to_fit() }
+    fn shrink_to<Tr: ?Sized + Trait>(v: &mut AnyVec<Tr, Self>, n: usize) { v.shrink_to(n) }
+    fn with_capacity<Tr: ?Sized + Trait, T: Elem + SatisfyTraits<Tr>>(n: usize) -> AnyVec<Tr, Self> {
+        AnyVec::<Tr, Self>::with_capacity::<T>(n)
+    }
+}
 
 impl<const SIZE: usize> BackOps for any_vec::mem::Stack<SIZE> {
     const RESIZABLE: bool = false;
